@@ -197,7 +197,7 @@ impl RoundTrip {
         // File route: serialize_to / load_from on the simulated file system.
         if let Some(plan) = &self.via_fs {
             let fs = FsSession::start(plan.clone(), 2 * expected[0].len());
-            let path = PathBuf::from("/sim/roundtrip");
+            let path = crate::scratch::file("simroundtrip");
             fs.put(&path, vec![0xEE; 3]); // pre-existing content must be truncated away
             let val = &vals[0];
             let tn = val.type_name();
@@ -205,6 +205,12 @@ impl RoundTrip {
                 Ok(Ok(())) => {},
                 Ok(Err(e)) => return out.fail(v("ser-error", "serialize_to", format!("{}: serialize_to failed on a healthy file system: {}", tn, e))),
                 Err(p) => return out.fail(v("panic", "serialize_to", format!("{}: {}", tn, p))),
+            }
+            if fs.with(|st| st.counters.opens) == 0 {
+                // The code reached the real file system without going through the seam: nothing to judge here.
+                let _ = std::fs::remove_file(&path);
+                out.stats.probe("file seam bypassed: the code under test opened the real file system directly");
+                return out;
             }
             let file = fs.file(&path).unwrap_or_default();
             if file != expected[0] {
@@ -868,7 +874,7 @@ impl FileFault {
 
     fn one(&self, prop: &str, val: &dyn DynVal, bytes: &[u8], k: u64, stats: &mut Stats) -> Option<Violation> {
         use crate::simfs::FsFault;
-        let path = PathBuf::from("/sim/filefault");
+        let path = crate::scratch::file("simfilefault");
         let writing = matches!(self.clause, FileClause::ToFull | FileClause::ToWriteOnce | FileClause::ToWriteFrom) || (self.clause == FileClause::Open && k == 0);
         let fault = match self.clause {
             FileClause::ToFull => Some(FsFault::Full(k, self.kind)),
@@ -901,6 +907,11 @@ impl FileFault {
             }
         };
         let leaked = fs.open_handles();
+        if fs.with(|st| st.counters.opens) == 0 {
+            let _ = std::fs::remove_file(&path);
+            stats.probe("file seam bypassed: the code under test opened the real file system directly");
+            return None;
+        }
         fs.with(|st| {
             stats.steps += st.io.calls + st.counters.opens;
             stats.fault("F1-open", st.counters.open_failed);
@@ -927,7 +938,9 @@ impl FileFault {
             FileClause::ToWriteOnce | FileClause::ToWriteFrom => {
                 // Dry run to count the write calls.
                 let fs = FsSession::start(FsPlan { chunk: self.chunk.clone(), eintr: self.eintr.clone(), fault: None }, 2 * bytes.len());
-                let _ = catch(|| val.serialize_to(&PathBuf::from("/sim/filefault")));
+                let p = crate::scratch::file("simfilefault");
+                let _ = catch(|| val.serialize_to(&p));
+                let _ = std::fs::remove_file(&p);
                 let n = fs.with(|st| st.counters.writes);
                 (0..n).collect()
             },
